@@ -19,6 +19,8 @@ type edgeCase struct {
 	Waits   bool   `json:"waits"`
 	Missing int    `json:"missing"`
 	Waiter  string `json:"waiter"` // side X: the call that is about to wait when Close comes
+	// side Y: the call of the other side that commits what the waiter is about to wait for
+	Committer string `json:"committer"`
 }
 
 // edgeGate: when armed, the next process that reaches a ".wait" yield site (it has tested the done flag under the mutex and
@@ -90,6 +92,81 @@ func runCloseEdge(c *edgeCase, size int64, bf *service.VerifBuffer, where string
 		}
 	case <-time.After(3 * time.Second):
 		return fmt.Sprintf("%s: BLOCKED: the ring was closed while a %s was about to wait; it was never woken (lost wake-up)", where, c.Waiter), "C15"
+	}
+	return "", ""
+}
+
+// runWakeEdge: the other side commits what a waiter needs while the waiter sits between its test of the cursor and its Wait
+func runWakeEdge(c *edgeCase, size int64, bf *service.VerifBuffer, where string, produced, consumed int64) (string, string) {
+	edgeGate.reached = make(chan struct{})
+	edgeGate.release = make(chan struct{})
+	atomic.StoreInt32(&edgeGate.armed, 1)
+	waiterDone := make(chan error, 1)
+	data := make([]byte, 16)
+	fillStream(data, produced)
+	go func() {
+		var err error
+		switch c.Waiter {
+		case "Read":
+			_, err = bf.Read(make([]byte, 16))
+		case "ReadPeek":
+			_, err = bf.ReadPeek(16)
+		case "ReadWait":
+			_, err = bf.ReadWait(16)
+		case "Write":
+			_, err = bf.Write(data)
+		default:
+			_, _, err = bf.WriteWait(16)
+		}
+		waiterDone <- err
+	}()
+	select {
+	case <-edgeGate.reached:
+	case <-time.After(3 * time.Second):
+		atomic.StoreInt32(&edgeGate.armed, 0)
+		return fmt.Sprintf("INFRA %s: %s did not reach its wait", where, c.Waiter), "INFRA"
+	}
+	committed := make(chan error, 1)
+	go func() {
+		var err error
+		switch c.Committer {
+		case "Write":
+			_, err = bf.Write(data)
+		case "WriteCommit":
+			var p []byte
+			if p, _, err = bf.WriteWait(16); err == nil {
+				copy(p, data)
+				_, err = bf.WriteCommit(16)
+			}
+		case "ReadCommit":
+			if _, err = bf.ReadPeek(16); err == nil {
+				_, err = bf.ReadCommit(16)
+			}
+		default:
+			_, err = bf.Read(make([]byte, 16))
+		}
+		committed <- err
+	}()
+	// correct code: the committer has stored its cursor and waits for the mutex the held waiter owns; a committer that
+	// does not take the mutex is through by now - either way the waiter is let go on into its Wait
+	time.Sleep(40 * time.Millisecond)
+	close(edgeGate.release)
+	select {
+	case err := <-committed:
+		if err != nil {
+			return fmt.Sprintf("INFRA %s: committing %s failed: %v", where, c.Committer, err), "INFRA"
+		}
+	case <-time.After(3 * time.Second):
+		return fmt.Sprintf("%s: BLOCKED: a %s of 16 bytes does not return within 3 s after the %s that was about to wait went into Wait", where, c.Committer, c.Waiter), "C15"
+	}
+	select {
+	case err := <-waiterDone:
+		if err != nil {
+			return fmt.Sprintf("%s: a %s that was about to wait when a %s committed 16 bytes returned %v", where, c.Waiter, c.Committer, err), "C15"
+		}
+	case <-time.After(3 * time.Second):
+		return fmt.Sprintf("%s: BLOCKED: a %s committed 16 bytes while a %s was between its test of the cursor and its Wait (holding the condition's mutex); "+
+			"the %s still waits 3 s later: the broadcast did not reach it (lost wake-up)", where, c.Committer, c.Waiter, c.Waiter), "C15"
 	}
 	return "", ""
 }
@@ -221,6 +298,9 @@ func runEdge(c *edgeCase, size int64) (d string, tag string) {
 	where := fmt.Sprintf("ring of %d bytes holding %d (consumer cursor %d)", size, c.Used, c.C)
 	if c.Side == "X" {
 		return runCloseEdge(c, size, bf, where)
+	}
+	if c.Side == "Y" {
+		return runWakeEdge(c, size, bf, where, produced, consumed)
 	}
 	atomic.StoreInt32(&edgeParked, 0)
 	done := make(chan string, 1)
